@@ -974,7 +974,7 @@ def run_confusion(job, io):
         # containers whose __len__ lies, as the children a custom flatten function returns and as leaves for unflatten
         fca = [f for (c, n, f) in reg.live if c is U.CA][0]
         liar_tree = [U.CA([U.Leaf(1), U.Leaf(2), U.Leaf(3)], 0), (U.CA([], 1),)]
-        for lm in ('liar_long', 'liar_short'):
+        for lm in ('liar_long', 'liar_short', 'len0', 'len1', 'len4', 'not_tuple', 'noniter', 'entries_noniter', 'entries_len'):
             fca.malform = lm
             probes['liar-sweep'] += 1
             for opn, f in (('flatten', lambda: check_flat(optree.tree_flatten(liar_tree, namespace='ns'))), ('with_path', lambda: optree.tree_flatten_with_path(liar_tree, namespace='ns')),
@@ -985,8 +985,10 @@ def run_confusion(job, io):
                 try:
                     f()
                     oc = 'ok'
-                except (ValueError, TypeError, RuntimeError, IndexError, Inconsistent):
+                except (ValueError, TypeError, RuntimeError, IndexError, Inconsistent) as e:
                     oc = 'exc'
+                    if isinstance(e, SystemError):
+                        probes['outcome:internal-error'] += 1
                 keys.add('cf|liar|%s|%s|%s' % (lm, opn, oc))
             fca.malform = None
         sp3 = optree.tree_structure([1, (2, 3), {'a': 4}])
